@@ -9,6 +9,35 @@ Proof.
   constructor; cbn; intros; try reflexivity; try constructor; try contradiction.
 Qed.
 
+(* POST labels with lists that are the label views: nothing observable changes *)
+Lemma post_labels_views bs G s ls :
+  ViewsI bs G s -> guard bs G (body s) (OLabels ls) ->
+  ViewsI bs G (mkS (blk s) (tgs s) (post_labels ls (lbl s)) (cnt s) (body s)).
+Proof.
+  intros V Hg. cbn [guard] in Hg. unfold post_labels.
+  assert (Hinv : forall lb,
+     (forall l, l <> 0%N -> is_nview (fun e => body s (e_pos e) = l) G (nget lb l)) -> nget lb 0%N = [] ->
+     (forall l, l <> 0%N -> is_nview (fun e => body s (e_pos e) = l) G
+          (nget (fold_left (fun acc le => if (fst le =? 0)%N then acc else aput (fst le) (snd le) acc) ls lb) l))
+     /\ nget (fold_left (fun acc le => if (fst le =? 0)%N then acc else aput (fst le) (snd le) acc) ls lb) 0%N = []).
+  { induction ls as [|[l0 es0] ls IH]; intros lb Hv H0; cbn [fold_left fst snd]; [auto|].
+    apply IH.
+    - intros l es Hin. apply Hg. now right.
+    - intros l Hl. destruct (l0 =? 0)%N eqn:E0; [now apply Hv|]. rewrite nget_aput. destruct (l0 =? l)%N eqn:E; [|now apply Hv].
+      apply N.eqb_eq in E. subst l0.
+      apply (nview_perm (on_body (body s) l) (fun e => body s (e_pos e) = l)); [intro e; apply on_body_true | apply (vi_uniq _ _ _ V)|].
+      apply Hg; [now left | exact Hl].
+    - destruct (l0 =? 0)%N eqn:E0; [exact H0|]. rewrite nget_aput, E0. exact H0. }
+  destruct (Hinv (lbl s) (vi_label _ _ _ V) (vi_label0 _ _ _ V)) as [Hv H0].
+  constructor; cbn [blk tgs lbl cnt body]; try apply V; auto.
+  intros i l Hl. rewrite (vi_count _ _ _ V i l Hl).
+  assert (P1 : Permutation (nget (lbl s) l) (map nr (filter (on_body (body s) l) G))).
+  { apply (nview_perm (on_body (body s) l) (fun e => body s (e_pos e) = l)); [intro e; apply on_body_true | apply (vi_uniq _ _ _ V) | now apply (vi_label _ _ _ V)]. }
+  assert (P2 : Permutation (nget (fold_left (fun acc le => if (fst le =? 0)%N then acc else aput (fst le) (snd le) acc) ls (lbl s)) l) (map nr (filter (on_body (body s) l) G))).
+  { apply (nview_perm (on_body (body s) l) (fun e => body s (e_pos e) = l)); [intro e; apply on_body_true | apply (vi_uniq _ _ _ V) | now apply Hv]. }
+  rewrite (count_idx_perm i _ _ P1), (count_idx_perm i _ _ P2). reflexivity.
+Qed.
+
 (* one request or label event *)
 Lemma viewsI_step bs G s o :
   ViewsI bs G s -> guard bs G (body s) o ->
@@ -16,15 +45,16 @@ Lemma viewsI_step bs G s o :
   /\ body (step_or_stay fixed bs o s) = body_after bs o (body s)
   /\ step fixed bs o s <> Panic.
 Proof.
-  intros V Hg. unfold step_or_stay. destruct o as [ord es|p|f t|bl|t m|t c incl|o n bls inspl|b pv d|b d].
-  - destruct (post_views bs G s ord es V Hg) as [s' [E [Eb V']]]. cbn [step gstep body_after]. rewrite E. split; [exact V' | split; [exact Eb | discriminate]].
+  intros V Hg. unfold step_or_stay. destruct o as [ord es|p|f t|bl|ls|t m|t c incl|o n bls inspl|b pv d|b d].
+  - cbn [step gstep body_after]. destruct Hg as [ND Hord]. destruct (elems_ok es) eqn:Hok.
+    + destruct (post_views bs G s ord es V ND Hord Hok) as [s' [E [Eb V']]]. rewrite E. split; [exact V' | split; [exact Eb | discriminate]].
+    + unfold store_elements. cbn [fx_valid fixed]. rewrite Hok. cbn [negb andb]. split; [exact V | split; [reflexivity | discriminate]].
   - cbn [step gstep body_after]. destruct (delete_views bs G s p V Hg) as [[E1 E2]|[E1 [s' [E2 [Eb V']]]]]; rewrite E1, E2.
     + split; [exact V | split; [reflexivity | discriminate]].
     + split; [exact V' | split; [exact Eb | discriminate]].
-  - cbn [step gstep body_after]. destruct (move_views bs G s f t V Hg) as [[E1 E2]|[E1 [s' [E2 [Eb V']]]]]; rewrite E1, E2.
-    + split; [exact V | split; [reflexivity | discriminate]].
-    + split; [exact V' | split; [exact Eb | discriminate]].
-  - destruct (reload_views bs G s bl V Hg) as [s' [E [Eb V']]]. cbn [step gstep body_after]. rewrite E. split; [exact V' | split; [exact Eb | discriminate]].
+  - exact (move_views bs G s f t V Hg).
+  - exact (reload_views bs G s bl V Hg).
+  - cbn [step gstep body_after]. split; [exact (post_labels_views bs G s ls V Hg) | split; [reflexivity | discriminate]].
   - destruct (merge_views bs G s t m V Hg) as [s' [E [Eb V']]]. rewrite E. cbn [gstep]. split; [exact V' | split; [exact Eb | discriminate]].
   - destruct (cleave_views bs G s t c incl V Hg) as [s' [E [Eb V']]]. rewrite E. cbn [gstep]. split; [exact V' | split; [exact Eb | discriminate]].
   - destruct (split_views bs G s o n bls inspl V Hg) as [s' [E [Eb V']]]. rewrite E. cbn [gstep]. split; [exact V' | split; [exact Eb | discriminate]].
@@ -89,19 +119,35 @@ Proof.
 Qed.
 
 Theorem move_updates_references bs G s f t :
-  Views bs G s -> guard bs G (body s) (OMove f t) -> in_posb f G = true ->
+  Views bs G s -> guard bs G (body s) (OMove f t) -> move_check f t G G = None ->
   forall q, In q G -> e_pos q <> f -> refs f q = true ->
   exists q', In q' (bget (blk (step_or_stay fixed bs (OMove f t) s)) (blockOf bs (e_pos q)))
              /\ e_pos q' = e_pos q /\ refs t q' = true /\ refs f q' = false.
 Proof.
-  intros V Hg Hin q Hq Hqf Hr. destruct (views_step bs G s (OMove f t) V Hg) as [V' _]. cbn [gstep] in V'. rewrite Hin in V'.
-  apply views_iff in V'. destruct Hg as [Ht _]. apply in_posb_false in Ht.
-  assert (Hft : f <> t). { intro E. apply Ht. rewrite <- E. now apply in_posb_true. }
+  intros V Hg Hchk q Hq Hqf Hr. destruct (views_step bs G s (OMove f t) V Hg) as [V' _]. cbn [gstep] in V'. rewrite Hchk in V'.
+  apply views_iff in V'.
+  assert (Hft : f <> t).
+  { unfold move_check in Hchk. destruct (find (has_pos f) G); [|discriminate].
+    destruct (pos_eqb f t) eqn:E; [discriminate | now apply pos_eqb_neq]. }
   exists (phi f t q). unfold phi. rewrite (repos_other f t q Hqf). split; [|split; [reflexivity|split]].
   - apply (vi_block _ _ _ V'). split; [|reflexivity]. rewrite g_move_map. apply in_map_iff. exists q. split; [|exact Hq].
     unfold phi. now rewrite (repos_other f t q Hqf).
   - now apply refs_mv_rel_to.
   - now apply refs_mv_rel_from.
+Qed.
+
+(* a rejected request changes nothing, whatever it contains *)
+Theorem rejected_is_noop bs o s : step fixed bs o s = Err -> step_or_stay fixed bs o s = s.
+Proof. intro E. unfold step_or_stay. now rewrite E. Qed.
+Theorem ill_formed_post_rejected bs ord es s : elems_ok es = false -> step fixed bs (OPost ord es) s = Err.
+Proof. intro H. cbn [step]. unfold store_elements. cbn [fx_valid fixed]. now rewrite H. Qed.
+Theorem ill_formed_blocks_rejected bs bl s : blocks_ok bs bl = false -> step fixed bs (OReload bl) s = Err.
+Proof. intro H. cbn [step]. unfold reload. cbn [fx_valid fixed]. now rewrite H. Qed.
+Theorem bad_move_rejected bs G s f t : Views bs G s ->
+  (exists r, move_check f t G G = Some r /\ r <> Ok tt) -> step fixed bs (OMove f t) s = Err.
+Proof.
+  intros V [r [H Hr]]. apply views_iff in V. cbn [step]. unfold move_element. cbn [fx_valid fixed].
+  rewrite (move_check_views bs G s f t V), H. destruct r as [[]| |]; [congruence | reflexivity | reflexivity].
 Qed.
 
 (* ---------- block arithmetic ---------- *)
@@ -123,8 +169,7 @@ Ltac finlist := repeat match goal with
                        | H : In _ [] |- _ => destruct H
                        end.
 Ltac nd := repeat (apply NoDup_cons; [cbn; intuition congruence|]); apply NoDup_nil.
-Ltac post_guard :=
-  split; [nd | split; [intros e He; finlist; vm_compute; auto | split; [cbn; nd | intros e He; finlist; cbn; nd]]].
+Ltac post_guard := split; [nd | intros e He; finlist; vm_compute; auto].
 
 (* 1. one element drops tag 7 while another element of the same block carries it: nil-map write *)
 Definition h_tag : list op := [OPost [b000] [eN (9,1,1) 4 [7%N]]].
@@ -139,9 +184,7 @@ Definition h_move : list op := [OPost [b000] [eN (1,2,2) 2 []]; OMove (1,2,2) (3
 Lemma valid_move : valid bs16 [] slabs h_move.
 Proof.
   cbn [h_move valid guard]. split; [post_guard | split; [|exact I]].
-  split; [reflexivity|]. split.
-  - intros e q He _ Hq Hr. vm_compute in Hq. destruct Hq as [Hq|[]]. subst q. vm_compute in Hr. discriminate.
-  - intros e He _. vm_compute in He. destruct He as [He|[]]. subst e. reflexivity.
+  intros e q He _ Hq Hr. vm_compute in Hq. destruct Hq as [Hq|[]]. subst q. vm_compute in Hr. discriminate.
 Qed.
 Lemma impl_move_breaks : ~ Views bs16 (grun bs16 h_move []) (run impl bs16 h_move (init slabs)).
 Proof.
@@ -161,10 +204,7 @@ Qed.
 (* 4. labelsz reload counts notes as synaptic elements *)
 Definition h_allsyn : list op := [OPost [b000] [eN (1,2,2) 4 []]; OReload []].
 Lemma valid_allsyn : valid bs16 [] slabs h_allsyn.
-Proof.
-  cbn [h_allsyn valid guard]. split; [post_guard | split; [|exact I]].
-  split; [constructor|]. split; [constructor|]. intros b es e Hb. destruct Hb.
-Qed.
+Proof. cbn [h_allsyn valid guard]. split; [post_guard | split; [constructor | exact I]]. Qed.
 Lemma impl_allsyn_breaks : ~ Views bs16 (grun bs16 h_allsyn []) (run impl bs16 h_allsyn (init slabs)).
 Proof.
   intro V. pose proof (v_count _ _ _ V n_sz_AllSyn 1%N ltac:(discriminate)) as P. vm_compute in P. discriminate.
